@@ -213,12 +213,69 @@ def temporal_grid(acc, run=None, prop="C01"):
                 specs.append({"dt": list(dates_[(h + m) % 3]) + [h, m, s_, us, tz]})
             for v in specs:
                 for spec in ([["T", v]], [["S", {"seq": [v, 1]}]]):
-                    case = {"enc": enc, "cfg": {}, "spec": spec}
-                    r = run(case)
-                    acc.event(f"grid:{enc}:{r[0]}")
-                    acc.case(key="grid" + repr(case), nontrivial=(r[0] == "ok"))
-                    if r[0] == "fail":
-                        acc.fail(r[1], case, r[2])
+                    # (options that touch the writing of times)
+                    for cfg in ({}, {"time_trailing_z": False}) if enc == "PDS3" \
+                            else ({},):
+                        case = {"enc": enc, "cfg": cfg, "spec": spec}
+                        r = run(case)
+                        acc.event(f"grid:{enc}:{r[0]}")
+                        acc.case(key="grid" + repr(case), nontrivial=(r[0] == "ok"))
+                        if r[0] == "fail":
+                            acc.fail(r[1], case, r[2])
+
+
+def sweep_specs(enc):
+    """Small modules (1-2 statements) rich in places where a wrapped line could break:
+    bare words and quoted strings that end in a dash, values with units, sequences."""
+    dashy = st.sampled_from(["north-", "a-", "x-y-", "pre- post-", "-", "ab -", "a-b",
+                             "1-", "N/A", "word", "two words", "it's-"])
+    units = gv.units(enc)
+    val = st.one_of(
+        st.tuples(dashy, units).map(lambda t: {"q": [t[0], t[1]]}),
+        st.tuples(st.integers(-5, 10 ** 12), units).map(lambda t: {"q": [t[0], t[1]]}),
+        st.lists(st.one_of(dashy, st.integers(0, 99), gv.strings(enc)), min_size=1,
+                 max_size=6).map(lambda l: {"seq": l}),
+        st.lists(st.one_of(dashy, st.integers(0, 99)), min_size=1,
+                 max_size=4).map(lambda l: {"set": l}),
+        dashy, gv.strings(enc), gv.values(enc))
+    item = st.tuples(gv.names(enc), val).map(list)
+    block = st.tuples(gv.block_names(), st.lists(item, min_size=1, max_size=2)).map(
+        lambda t: [t[0], {"grp": t[1]}])
+    return st.lists(st.one_of(item, item, item, block), min_size=1, max_size=2)
+
+
+def width_sweep(acc, enc, n, seed, run=None, prop="C01"):
+    """Each small module is written at *every* width from 8 up to the length of its
+    longest unwrapped line, so that a line break falls at every possible place."""
+    run = run or run_case
+
+    @hseed(seed)
+    @settings(max_examples=n, database=None, deadline=None,
+              phases=[Phase.generate],
+              suppress_health_check=list(HealthCheck))
+    @given(cfgs(enc), sweep_specs(enc))
+    def body(cfg, spec):
+        if acc.expired():
+            acc.notes["budget_exhausted"] = 1
+            return
+        try:
+            flat = make_encoder(enc, **dict(cfg, width=10 ** 6)).encode(
+                gv.build_module(spec))
+        except Exception:
+            acc.event(f"sweep:{enc}:refused-unwrapped")
+            return
+        longest = max(len(ln) for ln in flat.splitlines() or [""])
+        for width in range(8, min(longest, 140) + 2):
+            case = {"enc": enc, "cfg": dict(cfg, width=width), "spec": spec}
+            r = run(case)
+            acc.event(f"sweep:{enc}:{r[0]}")
+            if r[0] == "skip":
+                continue
+            acc.case(key=repr(case), nontrivial=(r[0] == "ok"))
+            if r[0] == "fail":
+                acc.fail(r[1], case, r[2])
+
+    body()
 
 
 def shards(tier, seed):
@@ -228,6 +285,9 @@ def shards(tier, seed):
         enc = ENCODERS[j % 4]
         out.append(("random_cases", dict(enc=enc, n=n, seed=seed * 1000 + j)))
     out.append(("temporal_grid", {}))
+    for j in range(8):
+        out.append(("width_sweep", dict(enc=ENCODERS[j % 4], seed=seed * 1000 + 500 + j,
+                                        n=25 if tier == "quick" else 800)))
     return out
 
 
